@@ -1363,6 +1363,39 @@ def _const_key_dicts(fn_node) -> Dict[str, List[str]]:
     return out
 
 
+def name_iterated_dict_literals(fn_node) -> int:
+    """``for k, v in {<literal>}.items():`` -> ``fields__dN = {<literal>}`` followed by ``for k, v in fields__dN.items():`` -
+    the dict literal is evaluated once, before the loop, either way; the named form is what the record-like dict passes
+    recognise."""
+    count = 0
+    taken = {n.id for n in ast.walk(fn_node) if isinstance(n, ast.Name)}
+    for node in ast.walk(fn_node):
+        for fld in ("body", "orelse", "finalbody"):
+            blk = getattr(node, fld, None)
+            if not (isinstance(blk, list) and blk and isinstance(blk[0], ast.stmt)):
+                continue
+            i = 0
+            while i < len(blk):
+                st = blk[i]
+                i += 1
+                if not (isinstance(st, ast.For) and isinstance(st.iter, ast.Call) and isinstance(st.iter.func, ast.Attribute) and st.iter.func.attr == "items"
+                        and not st.iter.args and isinstance(st.iter.func.value, ast.Dict) and st.iter.func.value.keys
+                        and all(isinstance(k, ast.Constant) and isinstance(k.value, str) for k in st.iter.func.value.keys)):
+                    continue
+                count += 1
+                nm = f"fields__d{count}"
+                while nm in taken:
+                    nm += "_"
+                taken.add(nm)
+                lit = st.iter.func.value
+                st.iter.func.value = ast.copy_location(ast.Name(id=nm, ctx=ast.Load()), lit)
+                blk.insert(i - 1, ast.copy_location(ast.Assign(targets=[ast.Name(id=nm, ctx=ast.Store())], value=lit), st))
+                i += 1
+    if count:
+        ast.fix_missing_locations(fn_node)
+    return count
+
+
 def unroll_const_dict_loops(fn_node) -> int:
     """``for k, v in D.items(): body`` over a record-like dict (see _const_key_dicts): one copy of the body per key with
     k the key constant and v a per-copy local initialised from ``D[key]`` (the body may update ``D[k]``)."""
@@ -2371,6 +2404,7 @@ def normalise(prog: Program) -> Tuple[Program, List[str]]:
                 log.append(f"{fn.qualname} ({nt} test(s) of a just-assigned None / tuple flag threaded into the assigning branches)")
             if static_attr_access(fn.node):
                 changed_alias = True
+            name_iterated_dict_literals(fn.node)
             ncd = unroll_const_dict_loops(fn.node)
             ncd += flatten_const_dicts(fn.node)
             if ncd:
@@ -2424,6 +2458,22 @@ def normalise(prog: Program) -> Tuple[Program, List[str]]:
         # unrolled loops may have produced lists built in instalments / literal tuples: one more aggregate pass
         prog, agg2 = flatten_aggregates(prog)
         log += [x for x in agg2 if x not in log]
+        # the per-copy locals that unrolling / record-like dicts introduced (``val__u1_3 = fields__d1__iterations``) forward
+        # to their uses like aggregate fields do
+        from .aggregates import _forward_fields, _propagate_field_copies
+
+        made = {}
+        for fn in prog.functions():
+            if body_hash(fn.node) in _inventory()[1]:
+                continue
+            ns = {n.id for n in ast.walk(fn.node) if isinstance(n, ast.Name) and ("__u" in n.id or "__d" in n.id)}
+            if ns:
+                made[id(fn.node)] = ns
+        if made and (_propagate_field_copies(prog, made) + _forward_fields(prog, made)):
+            for m in prog.modules.values():
+                ast.fix_missing_locations(m.tree)
+            trees = {m.relpath: m.tree for m in prog.modules.values()}
+            prog = Program(prog.root, override_trees=trees)
     # shape normalisation of the candidate filter (the stage recogniser expects one result variable and one exit)
     try:
         from .roles import Roles
